@@ -308,7 +308,7 @@ def write_evidence(pid, tier, level, coverage, wall, violations, assumptions=())
 
 
 def save_replay(pid, name, obj):
-    d = os.path.join(VERIF, "replays")
+    d = os.path.join(VERIF, "replays") if "VERIF_REPO" not in os.environ else os.path.join(tempfile.gettempdir(), "verif-replays-other-tree")
     os.makedirs(d, exist_ok=True)
     p = os.path.join(d, "%s-%s.json" % (pid, name))
     with open(p, "w") as f:
